@@ -357,6 +357,8 @@ class SchedQueue:
                     s.gets += 1
                     s.last_progress = s.steps
                     return self._items.pop(0)
+                if self.owner is None:
+                    self.owner = me.name  # the inbox of whoever waits on it
                 me.status = BLOCKED_GET
                 me.queue = self
                 me.may_time_out = timeout is not None
